@@ -203,6 +203,17 @@ class Index:
                         self.qual[m['id']] = key + '::' + m.get('name', '')
                         self.parent_rec[m['id']] = rec['id']
                         self.by_id[m['id']] = m
+                    elif m.get('kind') == 'FunctionTemplateDecl':
+                        # generic lambda: first child function is the pattern, the others are instantiations
+                        first = True
+                        for mm in m.get('inner', []):
+                            if mm.get('kind') in FUNC_KINDS:
+                                if first:
+                                    first = False; self.pattern.add(mm['id']); continue
+                                ta = self._targs(mm)
+                                self.qual[mm['id']] = key + '::' + mm.get('name', '') + ('<' + ', '.join(ta) + '>' if ta else '')
+                                self.parent_rec[mm['id']] = rec['id']
+                                self.by_id[mm['id']] = mm
                     elif m.get('kind') == 'FieldDecl':
                         self.by_id[m['id']] = m
                         self.parent_rec[m['id']] = rec['id']
